@@ -16,7 +16,7 @@ def register(CHECKS, H):
     units.append({"name": "c15_tsan", "src": "checks/c15_threads.cpp", "libs": ["-lpthread"],
                   "base_flags": ["-std=c++17", "-O1", "-g1", "-fno-access-control", "-fsanitize=thread", "-DNDEBUG", "-DVF_FREE_RUN",
                                  "-Wno-deprecated-declarations"]})
-    for sc in ("tree", "tree_link", "expansion", "matrix", "mixed"):
+    for sc in ("tree", "tree_link", "expansion", "matrix", "chain", "boundary", "zigzag", "mixed"):
         q.append({"unit": "c15_threads", "args": ["--scenario", sc, "--threads", "2", "--bound", "1", "--budget", "120"]})
         t.append({"unit": "c15_threads", "args": ["--scenario", sc, "--threads", "2", "--bound", "2", "--budget", "1500"], "timeout": 2400})
         q.append({"unit": "c15_tsan", "args": ["--scenario", sc, "--threads", "3", "--reps", "20"], "cores": 3})
